@@ -11,6 +11,7 @@ the caller (`read_record`'s width test) dominates the accesses of the callee (`t
 `columns[i]`).  A SITE is emitted for
 
     c[i]  c.front()  c.back()  c.pop_back()      on std::vector / std::string / std::array / std::deque
+                                                 (`s[i]` on a std::string only needs i <= size(): s[size()] is the NUL)
     *it  it->m                                   on a std iterator whose position is known (c.begin() + k …)
     std::next(it, k)  std::prev  it + k          iterator arithmetic
     p->m  *p                                     on a raw pointer (not `this`)
@@ -1181,7 +1182,10 @@ class Walker:
             out |= self.V(x, ctx)
         t0 = tdes(a[0]) if a else ""
         if op == "[]" and len(a) == 2 and is_seq(t0):
-            self.site(ctx, "index", self.R(a[0]), self.I(a[1]), e)
+            # std::basic_string: s[s.size()] is the terminating NUL – defined (read) access since C++11
+            is_string = "basic_string<" in strip_type(t0) and "basic_string_view" not in strip_type(t0)
+            self.site(ctx, "position" if is_string else "index", self.R(a[0]), self.I(a[1]), e,
+                      "std::string: index == size() is allowed" if is_string else "")
         elif op in ("*", "->") and len(a) == 1:
             if is_optional(t0):
                 self.site(ctx, "nonzero", "", var(self.R(a[0])), e, "std::optional")
